@@ -27,7 +27,13 @@ def new_run():
                "checks failing below a column error, aggregate checks (one boolean) and checks "
                "that raise (not attributable to rows: must be raised) on columns / index levels / "
                "the frame / a SeriesSchema, and stand-alone (regex) Column components matching 2-3 "
-               "columns; the surviving identities are compared with the reference model's rows "
+               "columns; two row-level errors of ONE component on different rows (two checks / null + "
+               "check / nulls under one regex column; pandas and polars); frames with a REPEATED column "
+               "label whose same-label columns violate the same constraint on different rows (judged: no "
+               "row violating a row-level constraint in any same-label column survives); polars float "
+               "data holding NaN and nulls under a non-nullable Column declaring no dtype / the data's "
+               "dtype / float (schema column, regex column, stand-alone Column.validate; NaN counts as "
+               "null); the surviving identities are compared with the reference model's rows "
                "satisfying every row-level constraint; non-trivial = at least one row must be dropped "
                "or a non-row error must be raised; distinct = canonical hash",
                ["reference model pvm/model.py; index labels unique and non-null (documented limit)",
@@ -91,6 +97,18 @@ def gen(rng, neutral=False):
                 {"name": "k0", "phys": "int64", "values": [rng.choice([3019, 7, 8]) for _ in range(n2)]},
                 {"name": "k1", "phys": "float64", "values": [x + 0.5 for x in rng.sample(range(50), n2)]}]}
     opts = []
+    if spec["kind"] == "frame" and rng.random() < (0.3 if neutral else 0.06):
+        # two row-level errors of ONE schema component on different rows
+        how = P.force_same_component_errors(rng, spec, table)
+        if how:
+            muts.append(("same_component_errors", how))
+            opts.append("combo:same_component_errors")
+            opts.append("combo:same_component_errors:" + how)
+    if spec["kind"] == "frame" and not neutral and rng.random() < 0.15:
+        how = force_repeated_label_errors(rng, spec, table)
+        if how:
+            muts.append(("repeated_label_errors", how))
+            opts.append("combo:repeated_label_errors")
     if spec["kind"] == "frame" and not neutral and rng.random() < 0.15 \
             and P.force_index_combo(rng, spec, table):
         # an Index check failing on a row below a row with a column error
@@ -124,6 +142,37 @@ def gen(rng, neutral=False):
     if G.relabel(rng, spec, table, typed, p=0.25, polars=neutral):
         opts.append("falsy_labels")
     return spec, table, typed, muts, opts
+
+
+def force_repeated_label_errors(rng, spec, table):
+    """A frame that carries one declared column label TWICE (adjacent), with the
+    same constraint of that Column (a check, else nullable=False) violated in
+    both same-label columns on different rows.  Returns the constraint kind."""
+    n = len(table["columns"][0]["values"]) if table["columns"] else 0
+    if n < 3 or C.has_dup_labels(table) or any(len(c["values"]) != n for c in table["columns"]):
+        return None
+    listed = set(G._flat_unique(spec))
+    cands = []
+    for fs in spec["columns"]:
+        if fs["regex"] or fs["name"] in listed or fs["unique"]:
+            continue
+        for k, c in enumerate(table["columns"]):
+            if c["name"] == fs["name"] and c["phys"] == G.PHYS_OF[fs["dtype"]]:
+                if fs["checks"] and G.violating(fs) and G.satisfying(fs):
+                    cands.append((fs, k, "check"))
+                elif not fs["nullable"] and c["phys"] in ("float64", "object", "datetime"):
+                    cands.append((fs, k, "null"))
+    if not cands:
+        return None
+    fs, k, how = rng.choice(cands)
+    c = table["columns"][k]
+    twin = copy.deepcopy(c)
+    table["columns"].insert(k + 1, twin)
+    spec["unique_column_names"] = False
+    i, j = rng.sample(range(n), 2)
+    c["values"][i] = rng.choice(G.violating(fs)) if how == "check" else None
+    twin["values"][j] = rng.choice(G.violating(fs)) if how == "check" else None
+    return how
 
 
 def expected(spec, typed):
@@ -172,8 +221,19 @@ def pandas_case(run, rng):
                      "coercion": opts, "model_bad_rows": sorted(v.bad_rows),
                      "model_non_row_errors": [e.reason for e in non_row], "impl": out.kind})
     run.count(f"pandas:{spec['kind']}:{out.kind}")
-    if v.accept is None or not v.rows_known or C.has_dup_labels(table):
+    if v.accept is None or not v.rows_known:
         run.count("undecided:model_not_exact")
+        return
+    dup_labels = C.has_dup_labels(table)
+    if dup_labels and (spec["kind"] != "frame" or spec.get("checks") or spec.get("dtype") or spec.get("coerce")
+                       or any((fs.get("unique") or fs.get("coerce"))
+                              and [c["name"] for c in table["columns"]].count(fs["name"]) > 1
+                              for fs in spec["columns"])):
+        # dataframe-level checks / dtype and column uniqueness over a repeated
+        # label: what they mean per same-label column is not documented; coercion
+        # of a repeated label: the model's typed twin describes one column only
+        run.count("undecided:model_not_exact")
+        run.count("undecided:repeated_labels_with_frame_checks_unique_or_coercion")
         return
     if spec["kind"] == "frame" and spec.get("dtype") and (
             spec.get("coerce") or any(c.get("coerce") for c in spec["columns"])):
@@ -235,6 +295,20 @@ def pandas_case(run, rng):
         return
     n = len(labels)
     exp = [i for i in range(n) if i not in v.bad_rows]
+    if dup_labels:
+        # repeated column labels: only "no row that violates a row-level
+        # constraint in ANY of the same-label columns survives" is judged
+        run.count("rows_compared:repeated_labels:no_invalid_row_survives")
+        bad = [i for i in survived if i in v.bad_rows]
+        if bad:
+            run.violation("invalid-row-survives",
+                          C.brief(spec, table, {"invalid_survivors": bad, "survived_positions": survived,
+                                                "model_errors": [(e.reason, e.column, e.check,
+                                                                  [i for i, _ in e.cells]) for e in v.errors]}),
+                          None)
+        elif survived != exp:
+            run.count("undecided:repeated_labels:valid_row_dropped_or_reordered")
+        return
     if survived != exp:
         run.violation("surviving-rows-differ",
                       C.brief(spec, table, {"expected_positions": exp, "survived_positions": survived,
@@ -303,6 +377,9 @@ def polars_case(run, rng):
         return
     res = out.result
     run.count("polars:rows_compared")
+    for o in opts:
+        if o.startswith("combo:"):
+            run.count(f"polars:rows_compared:{o}")
     exp_rows = [r for i, r in enumerate(rows_of(typed)) if i not in v.bad_rows]
     got_rows = [tuple(H.norm(x) for x in r) for r in res.select([c["name"] for c in typed["columns"]]).rows()] \
         if all(c["name"] in res.columns for c in typed["columns"]) else None
@@ -311,6 +388,93 @@ def polars_case(run, rng):
                       C.brief(spec, table, {"backend": "polars", "expected": exp_rows, "got": got_rows,
                                             "model_errors": [(e.reason, e.column, e.check) for e in v.errors]}),
                       None)
+
+
+NAN = float("nan")
+
+
+def polars_nan_case(run, rng):
+    """polars: floating point data holding NaN (and nulls) validated by a
+    non-nullable Column that declares NO data type, the data's own float type or
+    plain ``float`` - as a schema column, a regex column or a stand-alone
+    ``Column.validate``.  The nullability check "considers nulls and nan values
+    as effectively equivalent": a row survives iff every selected column holds a
+    value that is neither null nor NaN and passes the value check."""
+    import polars as pl
+    import pandera.polars as pa
+    n = rng.choice([4, 5, 6, 7])
+    shape = rng.choice(["schema_column", "regex_column", "stand_alone", "stand_alone_regex"])
+    f32 = rng.random() < 0.3
+    declared = rng.choice(["none", "none", "none", "data", "float"])
+    if f32 and declared == "float":
+        declared = "data"
+    chk = None
+    if rng.random() < 0.6:
+        chk = G.gen_check(rng, "float64", neutral=True)
+        if f32 and chk["kind"] not in ("gt", "ge", "lt", "le", "in_range"):
+            chk = {"kind": "ge", "args": {"min_value": 0.0}, "ignore_na": True}
+    regex = shape in ("regex_column", "stand_alone_regex")
+    labels = ["x_a", "x_b"][: rng.randint(1, 2)] if regex else ["x"]
+    pool = G.POOL["float64"][:-1]
+    good = [x for x in pool if chk is None or M.check_cell(chk, x)] or [0.5]
+    bad = [x for x in pool if chk is not None and not M.check_cell(chk, x)]
+    if not [x for x in pool if chk is None or M.check_cell(chk, x)]:
+        chk = None
+    cols = {}
+    for l in labels:
+        vals = [rng.choice(good) for _ in range(n)]
+        for _ in range(rng.randint(1, 2)):
+            vals[rng.randrange(n)] = NAN
+        if rng.random() < 0.5:
+            vals[rng.randrange(n)] = None
+        if bad and rng.random() < 0.6:
+            vals[rng.randrange(n)] = rng.choice(bad)
+        cols[l] = vals
+    keys = ["r%d" % i for i in range(n)]
+    ftype = pl.Float32 if f32 else pl.Float64
+    frame = {l: pl.Series(l, v, dtype=ftype) for l, v in cols.items()}
+    frame["k"] = pl.Series("k", keys)
+    if rng.random() < 0.5:
+        frame = dict(reversed(list(frame.items())))
+    df = pl.DataFrame(frame)
+    dt = {"none": None, "data": ftype, "float": float}[declared]
+    kw = dict(checks=[getattr(pa.Check, chk["kind"])(**chk["args"])] if chk else None, nullable=False)
+    name = "x_.*" if regex else "x"
+    if shape.startswith("stand_alone"):
+        schema = pa.Column(dt, name=name, regex=regex, drop_invalid_rows=True, **kw)
+    else:
+        d = {name: pa.Column(dt, regex=regex, **kw)}
+        if rng.random() < 0.5:
+            d["k"] = pa.Column(pl.String)
+        schema = pa.DataFrameSchema(d, drop_invalid_rows=True)
+    out = H.run_validate(schema, df, lazy=True)
+
+    def js(x):
+        return "NaN" if isinstance(x, float) and x != x else x
+    desc = {"backend": "polars", "nan_case": True, "shape": shape, "float32": f32, "declared_dtype": declared,
+            "check": chk, "columns": {l: [js(x) for x in v] for l, v in cols.items()}}
+    exp = [keys[i] for i in range(n)
+           if all(cols[l][i] is not None and cols[l][i] == cols[l][i]
+                  and (chk is None or M.check_cell(chk, cols[l][i])) for l in labels)]
+    run.case(canon_hash(["polars-nan", desc]), len(exp) < n, sample=None)
+    tag = f"polars:nan:{shape}:dtype_{declared}"
+    run.count(f"{tag}:{out.kind}")
+    if out.kind != "ok":
+        run.violation("row-level-violations-raised-instead-of-dropped" if out.kind != "exc"
+                      else "internal-exception-instead-of-drop-or-SchemaErrors",
+                      dict(desc, impl=out.kind, reasons=out.reasons(), exc=repr(out.exc)[:300]), None)
+        return
+    run.count("polars:nan:rows_compared")
+    run.count(f"{tag}:rows_compared")
+    if declared == "none":
+        run.count(f"polars:nan:rows_compared:no_declared_dtype:{'stand_alone' if shape.startswith('stand_alone') else 'schema'}")
+    try:
+        got = out.result["k"].to_list()
+    except Exception as e:
+        run.violation("result-has-unknown-row-labels", dict(desc, exc=repr(e)[:200]), None)
+        return
+    if got != exp:
+        run.violation("surviving-rows-differ", dict(desc, expected=exp, got=got), None)
 
 
 REGEX_LABELS = {"r_.*": ["r_a", "r_bb", "r_c"], "r\\d": ["r1", "r2", "r3"], "r_a|r_b": ["r_a", "r_b"]}
@@ -500,7 +664,9 @@ def run(run, ctx):
         doc_examples(run)
     for i in ctx.cases(N[ctx.tier]):
         rng = ctx.rng(PID, i)
-        if i % 8 == 5:
+        if i % 16 == 7:
+            polars_nan_case(run, rng)
+        elif i % 8 == 5:
             column_case(run, rng)
         elif i % 3 == 2:
             polars_case(run, rng)
@@ -516,6 +682,13 @@ def finalize(run, ctx):
                     ("polars:rows_compared", 60), ("doc_example_checked", 7),
                     ("rows_compared:combo:index_error_below_column_error", 18),
                     ("rows_compared:falsy_labels", 45),
+                    ("rows_compared:combo:same_component_errors", 4),
+                    ("polars:rows_compared:combo:same_component_errors", 20),
+                    ("rows_compared:combo:repeated_label_errors", 7),
+                    ("rows_compared:repeated_labels:no_invalid_row_survives", 30),
+                    ("polars:nan:rows_compared", 50),
+                    ("polars:nan:rows_compared:no_declared_dtype:schema", 18),
+                    ("polars:nan:rows_compared:no_declared_dtype:stand_alone", 15),
                     ("rows_compared:range_index:not_zero_based_or_stepped", 12),
                     ("column:regex:rows_compared", 50), ("column:plain:rows_compared", 18),
                     ("column:regex:rows_compared:violation_in_a_matched_column_that_is_not_the_last", 25),
